@@ -13,13 +13,18 @@ Theorem C19_loaded_never_panics : forall pf uni_word re_match heur_bt re_compile
 Proof. exact pipeline_no_panic_ok. Qed.
 Print Assumptions C19_loaded_never_panics.
 (* ... also when the event overlaps a reload: the rule it was matched by may come from one
-   configuration and the defaults it is handled with from another (handleEvent asks the mapper
-   twice); whatever moments of the system's life rule, defaults and registry are taken from,
-   handling the event does not panic *)
+   configuration, the defaults it is classified with from another and the defaults the registry
+   takes the bucket / quantile options from a third (three separate critical sections of the
+   mapper's lock: handle_event2 in Spec/PipelineSpec.v); whatever moments of the system's life
+   they and the registry are taken from, handling the event does not panic *)
 Theorem C19_event_across_reload_never_panics : forall pf uni_word re_match heur_bt re_compiles CS c_get c_add c_reset builtins,
   stmt_event_across_reload_no_panic pf uni_word re_match heur_bt re_compiles CS c_get c_add c_reset builtins.
 Proof. exact event_across_reload_no_panic_ok. Qed.
 Print Assumptions C19_event_across_reload_never_panics.
+(* (with both readings of the defaults equal, handle_event2 is the model's handle_event) *)
+Theorem C19_handle_event2_same : stmt_handle_event2_same.
+Proof. exact handle_event2_same_ok. Qed.
+Print Assumptions C19_handle_event2_same.
 (* ... nor a scrape fail (reserved rule labels are refused per event, C03_scrape_ok) *)
 Theorem C19_loaded_scrapes_ok : forall pf uni_word re_match heur_bt re_compiles CS c_get c_add c_reset builtins,
   stmt_scrape_ok pf uni_word re_match heur_bt re_compiles CS c_get c_add c_reset builtins.
